@@ -16,10 +16,10 @@ from vf.common import MachineryError
 PROP = "C08"
 
 
-def validate(ctx, cases, tags, label, prop=PROP, keyfn=None, with_c=False):
+def validate(ctx, cases, tags, label, prop=PROP, keyfn=None, with_c=False, grouped=False):
     """cases -> TLC verdict; returns number of violating (case, record) pairs"""
     path = os.path.join(common.scratch("sel"), f"cases_{label}.json")
-    envs = sg.envs(with_c)
+    envs = sg.envs(with_c, grouped)
     tlc.write_json(path, {"recs": envs, "cases": cases})
     r = ctx.tlc("Trace_Selector", "Trace_Selector.cfg", f"{label}: {len(cases)} expressions x {len(envs)} records x 2 engines", env={"TRACE_FILE": path})
     os.remove(path)
@@ -98,8 +98,8 @@ def run(tier):
     ctx = check.Ctx(PROP, tier)
     # the reference semantics itself: exhaustive model-level lemmas (missing => every comparison False, in every context)
     ctx.design("MC_Selector", "MC_Selector_c08.cfg", "model lemmas: MissingCompareFalse over operator x operand kind x record", workers=4)
-    frecs, D = sg.real_records(with_c=True)
-    plain = [{k: sg.val(v) for k, v in r.items()} for r in sg.RECS]
+    frecs, D = sg.real_records(with_c=True, grouped=True)      # the fifth record is a GROUPED record (first member = record 1)
+    plain = [{k: sg.val(v) for k, v in r.items()} for r in sg.RECS] + [dict({k: sg.val(v) for k, v in sg.RECS[0].items()}, q="a")]
     ex = sg.c08_exprs()
     cases = [sg.make_case(e, frecs, plain) for e, tag in ex]
     tags = [tag for e, tag in ex]
@@ -107,7 +107,7 @@ def run(tier):
         ctx.sample({"expression": c["src"], "tag": t, "interpreted": c["I"], "compiled": c["C"]})
     for c in cases:
         ctx.case(c["src"])
-    validate(ctx, cases, tags, "C08 grammar", keyfn=lambda key, c, rid, eng: dict(key, record_has_field_m=(rid == 4), observed=c[eng][rid - 1]["k"] + (":" + c[eng][rid - 1].get("c", "") if c[eng][rid - 1]["k"] == "exc" else "")), with_c=True)
+    validate(ctx, cases, tags, "C08 grammar", keyfn=lambda key, c, rid, eng: dict(key, record_has_field_m=(rid == 4), observed=c[eng][rid - 1]["k"] + (":" + c[eng][rid - 1].get("c", "") if c[eng][rid - 1]["k"] == "exc" else "")), with_c=True, grouped=True)
     stream_half(ctx)
     keep = [i for i, (e, t) in enumerate(ex) if not any(x["k"] == "field" and x["f"] == "c" for x in sg.walk(e))]   # the stream files carry no command field
     streamfilter.run(ctx, [ex[i] for i in keep], [cases[i] for i in keep], [tags[i] for i in keep], PROP, tier == "thorough")
